@@ -15,11 +15,13 @@ mkdir -p tests && cp "$D/demo.rs" tests/demo.rs
 if ! cargo test --offline --test demo >"$W/clean.log" 2>&1; then echo "REJECT demo fails on the clean tree"; tail -n 15 "$W/clean.log"; exit 1; fi
 if ! git apply "$D/patch.diff" 2>"$W/apply.log"; then echo "REJECT patch does not apply"; cat "$W/apply.log"; exit 1; fi
 cargo test --offline --no-fail-fast >"$W/patched.log" 2>&1
-# up to two retries if only the known-flaky t-test failed in the lib suite
-for try in 1 2; do
-  if grep -q "distributions::t::tests::test_moments ... FAILED" "$W/patched.log" && [ "$(grep -c '\.\.\. FAILED' "$W/patched.log" | head -1)" -le 4 ]; then
-    cargo test --offline --no-fail-fast >"$W/patched.log" 2>&1
-  fi
+# the repository's distribution moment tests (t, pareto, exponential, ...) are randomly flaky even on the
+# unchanged tree: if the only failures of the unit suite are `*::tests::test_moments`, rerun (up to 4 times)
+for try in 1 2 3 4; do
+  LIBFAILS=$(awk '/Running unittests src\/lib.rs/{f=1} /Running tests\/demo.rs/{f=0} f&&/^test .* \.\.\. FAILED/{print $2}' "$W/patched.log")
+  [ -z "$LIBFAILS" ] && break
+  if echo "$LIBFAILS" | grep -qv "::tests::test_moments$"; then break; fi
+  cargo test --offline --no-fail-fast >"$W/patched.log" 2>&1
 done
 LIBLINE=$(grep -m1 "^test result:" "$W/patched.log")
 case "$LIBLINE" in *"66 passed; 0 failed"*) ;; *) echo "REJECT unit suite does not pass with the change: $LIBLINE"; grep "FAILED" "$W/patched.log" | head; exit 1;; esac
